@@ -2,6 +2,9 @@
 // kind "run"    (decided by simulation): while a simulated run executes, the Schedule is mutated under the driver's feet by
 //               applyAction at times the run decides; deep images (serialised bytes + public-query image) of snapshots 0..k are
 //               taken when simulated time passes report step k and re-verified after every later mutation and at run end.
+// kind "shipped": the same cut relation over the SCHEDULE sections of the decks shipped under /repo/tests (keyword families far
+//               beyond the generator's): the parsed Deck is cut in front of a DATES/TSTEP keyword (optionally a different
+//               time keyword is appended) and states 0..k are compared with the schedule of the full deck.
 // kind "static" (generated-input relation run in the same harness, stated as such): for every cut point k the schedule of the
 //               full deck, of the deck truncated after k and of the deck with a different tail after k agree on states 0..k.
 #include "../simcore/runner.hpp"
@@ -10,6 +13,7 @@
 #include "srun/packing.hpp"
 #include "srun/monitor.hpp"
 
+#include <opm/input/eclipse/Deck/Deck.hpp>
 #include <opm/input/eclipse/Parser/Parser.hpp>
 #include <opm/input/eclipse/Schedule/ScheduleState.hpp>
 #include <opm/common/utility/TimeService.hpp>
@@ -49,11 +53,17 @@ std::vector<StepDef> other_tail(const Model& m, int k, std::uint64_t seed) {
 
 struct C03 : Scenario {
     std::string id() const override { return "C03"; }
+    std::vector<std::string> shipped;       // decks under /repo/tests with a SCHEDULE section of >= 2 time keywords, no PYACTION, no RESTART
+    C03() { shipped = shipped_decks(2); }
     Json describe() override { Json j = Json::object(); j["scenario"] = "S-RUN monitor + static cut/tail relation"; j["real_vs_stub"] = describe_real_vs_stub(); return j; }
 
     Json generate(Rng& rng, const std::string& tier, std::uint64_t run) override {
         Json p = Json::object();
         const bool runkind = run % 2 == 1;
+        if (!shipped.empty() && mix64(run ^ 0xC03) % 6 == 0) {
+            p["scenario"] = "S-RUN"; p["kind"] = "shipped"; p["deck_pick"] = static_cast<long long>(rng.below(100000)); p["cut"] = rng.unit(); p["variant"] = static_cast<long long>(rng.below(2));
+            return p;
+        }
         p["scenario"] = "S-RUN"; p["kind"] = runkind ? "run" : "static";
         GenOpts o; o.max_steps = tier == "thorough" ? 10 : 7; o.max_actions = runkind ? 3 : 2; o.max_udq = 2; o.restart_safe_conditions = false; o.reparent_groups = true; o.late_edits = true; o.geo_kws = true;
         p["model_seed"] = static_cast<long long>(rng.next() >> 8); p["gen"] = o.to_json(); p["physics_seed"] = static_cast<long long>(rng.next() >> 16);
@@ -66,6 +76,7 @@ struct C03 : Scenario {
 
     std::vector<Json> shrink(const Json& plan) override {
         std::vector<Json> out;
+        if (plan.gets("kind") == "shipped") { if (plan.geti("variant") != 0) { Json p = plan; p["variant"] = 0; out.push_back(p); } for (double c : {0.0, 0.25, 0.5}) if (plan.getd("cut") > c + 0.1) { Json p = plan; p["cut"] = c; out.push_back(p); } return out; }
         Model m = generate_model(static_cast<std::uint64_t>(plan.geti("model_seed")), GenOpts::from_json(plan.at("gen")));
         Json drops = plan.has("drops") ? plan.at("drops") : Json::object(); apply_drops(m, drops);
         if (plan.gets("kind") == "static" && !plan.has("only_cut")) for (int k = 1; k < m.nsteps(); ++k) { Json p = plan; p["only_cut"] = k; out.push_back(p); }
@@ -80,7 +91,63 @@ struct C03 : Scenario {
         return out;
     }
 
+    RunResult execute_shipped(const Json& plan) {
+        RunResult r;
+        const std::string root = getenv("VERIF_RUNDIR") ? getenv("VERIF_RUNDIR") : "/dev/shm/verif.run";
+        fs::begin_run(root);
+        const std::string path = shipped.empty() ? std::string() : shipped[static_cast<size_t>(plan.geti("deck_pick")) % shipped.size()];
+        Hash64 oh, sh; sh.str("shipped"); sh.str(path);
+        Json sample = Json::object(); sample["kind"] = "shipped"; sample["deck"] = path.substr(path.rfind('/') + 1);
+        long compared = 0;
+        fs::passthrough(true);          // the shipped decks and their INCLUDE files are read from /repo/tests
+        try {
+            Opm::Parser parser; auto python = std::make_shared<Opm::Python>();
+            std::unique_ptr<Opm::Deck> dfull; std::unique_ptr<Opm::EclipseState> es; std::unique_ptr<Opm::Schedule> full;
+            try { dfull = std::make_unique<Opm::Deck>(parser.parseFile(path)); es = std::make_unique<Opm::EclipseState>(*dfull); full = std::make_unique<Opm::Schedule>(*dfull, *es, python); }
+            catch (const std::exception&) { ++r.counters["shipped.unusable_deck"]; full.reset(); }
+            if (full) {
+                // positions of the time keywords of the SCHEDULE section
+                std::vector<size_t> tpos; bool in_sched = false;
+                for (size_t q = 0; q < dfull->size(); ++q) { const auto& n = (*dfull)[q].name(); if (n == "SCHEDULE") in_sched = true; else if (in_sched && (n == "DATES" || n == "TSTEP")) tpos.push_back(q); }
+                if (tpos.size() >= 2) {
+                    const size_t c = 1 + static_cast<size_t>(plan.getd("cut") * static_cast<double>(tpos.size() - 1)) % (tpos.size() - 1);     // cut in front of time keyword #c (>= 1)
+                    Opm::Deck d2(*dfull);
+                    d2.remove_keywords(static_cast<int>(tpos[c]), static_cast<int>(dfull->size()));
+                    std::string vname = "cut in front of time keyword #" + std::to_string(c) + " of " + std::to_string(tpos.size());
+                    if (plan.geti("variant") == 1) { d2.addKeyword((*dfull)[tpos.back()]); vname += " with the deck's last time keyword appended"; }
+                    Opm::EclipseState es2(d2);
+                    Opm::Schedule s2(d2, es2, python);
+                    Opm::SummaryState st(Opm::TimeService::from_time_t(full->getStartTime()), es->runspec().udqParams().undefinedValue());
+                    // states the two inputs have in common: the truncated input's states up to the one the cut block belongs to
+                    // the state the cut block belongs to = number of report steps the time keywords in front of the cut create
+                    size_t last = 0;
+                    for (size_t q = 0; q < c; ++q) { const auto& tk = (*dfull)[tpos[q]]; last += tk.name() == "DATES" ? tk.size() : tk.getRecord(0).getItem(0).data_size(); }
+                    sample["states_compared"] = static_cast<long long>(last + 1); sample["cut"] = static_cast<long long>(c);
+                    if (last >= s2.size() || last >= full->size()) r.fail("C03.shipped.size", sample.gets("deck") + " " + vname + ": " + std::to_string(s2.size()) + " states, the full deck has " + std::to_string(full->size()));
+                    else for (size_t j = 0; j <= last && r.violations.empty(); ++j) {
+                        auto da = dump_state(*full, j, st, DumpOpts{true, true, true, false, true, true, false});
+                        auto db = dump_state(s2, j, st, DumpOpts{true, true, true, false, true, true, false});
+                        std::string cls; std::string dd = diff_dumps(da, db, false, cls);
+                        compared += static_cast<long>(da.size()); oh.u64(hash_dump(db));
+                        if (!dd.empty()) { r.fail("C03.shipped.query." + cls, sample.gets("deck") + ": state " + std::to_string(j) + " of the schedule " + vname + " differs from the full schedule: " + dd); break; }
+                        const std::string md = state_member_diff((*full)[j], s2[j], false, false, j == last);
+                        if (!md.empty()) { r.fail("C03.shipped.member." + md, sample.gets("deck") + ": state " + std::to_string(j) + " of the schedule " + vname + ": member '" + md + "' differs from the full schedule"); break; }
+                    }
+                    r.nontrivial = true; ++r.counters["shipped.decks_cut"];
+                    sh.u64(c); sh.u64(static_cast<std::uint64_t>(plan.geti("variant")));
+                } else ++r.counters["shipped.too_few_time_keywords"];
+            }
+        } catch (const std::exception& e) { if (r.violations.empty()) r.fail("C03.shipped_threw." + msg_key(e.what()), sample.gets("deck") + ": constructing the schedule of the cut deck threw: " + e.what()); }
+        fs::passthrough(false);
+        r.counters["comparisons"] = compared;
+        r.shape = sh.h; r.sample = sample;
+        { Hash64 fin; fin.u64(oh.h); r.hash = fin.h; }
+        fs::end_run(true);
+        return r;
+    }
+
     RunResult execute(const Json& plan) override {
+        if (plan.gets("kind") == "shipped") return execute_shipped(plan);
         RunResult r;
         const std::string root = getenv("VERIF_RUNDIR") ? getenv("VERIF_RUNDIR") : "/dev/shm/verif.run";
         fs::begin_run(root);
